@@ -467,6 +467,8 @@ def run(tier, seed, replay):
                         np.where(np.abs(A.real) < 2.5, 0, A.real) + 1j * np.where(np.abs(A.imag) < 2.5, 0, A.imag), data=data)
                 attempt("column_stack", lambda: _data.column_stack(XA.copy(), **kw), [fa], out, A.reshape(-1, 1, order="F"), data=data)
                 attempt("reshape", lambda: _data.reshape(XA, c, r, **kw), [fa], out, A.reshape(c, r), data=data)
+                for r2 in ([d_ for d_ in range(1, r * c + 1) if (r * c) % d_ == 0 and d_ not in (r, c)][:4] if out is None else []):
+                    attempt("reshape-factors", lambda: _data.reshape(XA, r2, (r * c) // r2), [fa], out, A.reshape(r2, (r * c) // r2), data=data)
                 attempt("zeros_like", lambda: _data.zeros_like(XA), [fa], out, np.zeros_like(A), data=data)
                 if r == c:
                     attempt("pow", lambda: _data.pow(XA, 3, **kw), [fa], out, np.linalg.matrix_power(A, 3), data=data)
@@ -633,6 +635,15 @@ def run(tier, seed, replay):
                             base_out = pattern(rng, (r, Rm.shape[1]), "full")
                             O = _data.Dense(np.asfortranarray(base_out) if oo else np.ascontiguousarray(base_out), copy=False)
                             attempt(name_, lambda: prod(O), [fa, "dense_f" if fo else "dense_c", "out_f" if oo else "out_c"], None, (1 + 1j) * (A @ Rm) + base_out, data=data)
+                            # scale 1 (the kernels then accumulate straight into `out`), right operands with several columns
+                            Bw = pattern(rng, (c, int(rng.integers(2, 5))), "full")
+                            base_w = pattern(rng, (r, Bw.shape[1]), "full")
+                            Ow = _data.Dense(np.asfortranarray(base_w) if oo else np.ascontiguousarray(base_w), copy=False)
+                            Rw = _data.Dense(np.asfortranarray(Bw) if fo else np.ascontiguousarray(Bw), copy=False)
+                            want_w = A @ Bw + base_w          # (the buffer of `out` may be base_w itself)
+                            attempt("matmul-out-unit-scale", lambda: _data.matmul(XA, Rw, 1, Ow), [fa, "dense_f" if fo else "dense_c", "out_f" if oo else "out_c"], None, want_w, data=data)
+                            if not np.array_equal(Ow.to_array(), want_w):
+                                v(f"matmul-out-unit-scale:buffer:{fa}", f"matmul({fa}, dense, 1, out): the buffer handed in as `out` does not hold out + A B afterwards", data)
                             # dense @ (operand in its storage form) into `out`, and the adjoint product
                             if fb.startswith("dia") or fb.startswith("csr"):
                                 base2 = pattern(rng, (Bt.shape[1], c), "full") if False else pattern(rng, (r, Bt.shape[1]), "full")
@@ -670,6 +681,16 @@ def run(tier, seed, replay):
                     attempt("expm-bad-shape", lambda: _data.expm(XA), [fa], None, None, data=data)
                     attempt("pow-bad-shape", lambda: _data.pow(XA, 2), [fa], None, None, data=data)
                 attempt("reshape-bad-shape", lambda: _data.reshape(XA, r + 1, c), [fa], None, None, data=data)
+    # ------------------------------------------------------------------ reshape to every factorisation of the size, from every storage form
+    for shp in ((3, 4), (4, 3), (6, 2), (7, 3), (5, 4), (2, 6), (1, 12)):
+        Ar = pattern(rng, shp, str(rng.choice(["full", "random", "diagonals"])))
+        tot = shp[0] * shp[1]
+        for fa in FORMS:
+            Xr = build(Ar, fa, rng)
+            for r2 in [d_ for d_ in range(1, tot + 1) if tot % d_ == 0]:
+                attempt("reshape-factors", lambda: _data.reshape(Xr, r2, tot // r2), [fa], None, Ar.reshape(r2, tot // r2), data={"shape": list(shp), "to": [r2, tot // r2], "A": str(Ar.tolist())})
+            if not np.array_equal(Xr.to_array(), Ar):
+                v(f"reshape-changes-operand:{fa}", f"reshape changed the matrix of its {fa} operand", {"shape": list(shp)})
     # ------------------------------------------------------------------ diagonal matrices, with stored zeros and messy storage
     for it in range(6 if tier == "quick" else 30):
         n = int(rng.integers(2, 7))
